@@ -1,5 +1,6 @@
 """C06 - user functions are called once per evaluation and never behind the scenes."""
 import numpy as np
+from hypothesis import strategies as st
 
 from .. import e2e
 from .. import spec as S
@@ -39,8 +40,35 @@ def budget(tier):
     return 3000 if tier == "quick" else 120000
 
 
+HUGE_PROFILE = dict(PROFILE, ns=[(2, 3), (3, 3), (4, 1)], scale_prob=15, decimal_prob=0,
+                    bound_pats=[("free", 2), ("lower", 1), ("two", 3), ("fixed", 3)])
+
+
+@st.composite
+def strategy_huge(draw):
+    """One variable of huge magnitude (fixed by its bounds, or merely started far away) next to O(1) ones and a
+    small initial radius: consecutive evaluation points then agree to a relative 1e-15 in the max norm while being
+    different points, at which every user function must still be called."""
+    from ..engine import dec, enc
+
+    sp = dec(draw(S.problems(HUGE_PROFILE)))
+    i = draw(st.integers(0, sp["n"] - 1))
+    big = float(draw(st.sampled_from([2.0 ** 33, -2.0 ** 33, 2.0 ** 40])))
+    lb, ub = sp["lb"][i], sp["ub"][i]
+    if lb == ub or draw(st.booleans()):
+        sp["lb"][i] = sp["ub"][i] = big
+    else:
+        sp["lb"][i], sp["ub"][i] = "-inf", "inf"
+    sp["x0"][i] = big
+    sp["options"].pop("scale", None)
+    sp["options"].pop("nb_points", None)  # drawn for another number of non-fixed variables
+    sp["options"]["radius_init"] = float(draw(st.sampled_from([2.0 ** -17, 2.0 ** -20, 2.0 ** -10])))
+    sp["options"].pop("radius_final", None)
+    return enc(sp)
+
+
 def strategy(tier):
-    return S.problems(PROFILE)
+    return st.integers(0, 7).flatmap(lambda k: strategy_huge() if k == 0 else S.problems(PROFILE))
 
 
 class UnexpectedCall(Exception):
